@@ -171,6 +171,13 @@ def gen(rng, idx, tier):
             cats = {n: rng.choice(INVALID_VALUES) for n in rng.sample(names, min(3, len(names)))}
         if rng.random() < 0.02:
             cats = {n: "unassigned" for n in rng.sample(names, min(3, len(names)))}
+        if rng.random() < 0.07:
+            # a map that uses ONE of the four classes only (plus unassigned / invalid / skipped
+            # entries): every class alone must be enough for the statement to be written
+            one = rng.choice(["component", "component", "base", "ligature", "mark"])
+            cats = {n: one for n in rng.sample(exported, min(rng.choice([1, 2, 3]), len(exported)))}
+            for n in rng.sample(names, min(2, len(names))):
+                cats.setdefault(n, rng.choice(["unassigned", INVALID_VALUES[0]]))
     # ---- caret anchors
     by_name = {g["name"]: g for g in glyphs}
     for g in glyphs:
